@@ -10,7 +10,10 @@ FORCES = [dict(step_mode='mixed'), dict(step_mode='mixed', n_batch=7, n_shell=20
           # sure to reach the sampling phase with shells far below n_shell (a top-up needs several batches; with the
           # exploration discarded every shell starts from zero)
           dict(step_mode='mixed', family='gauss', n_dim=2, n_live=30, n_networks=0, n_batch=7, n_shell=40, n_eff=100, discard_at_end=True, vectorized=False, pool_l=None, pool_s=None),
-          dict(step_mode='mixed', family='twomode', n_dim=2, n_live=40, n_networks=0, n_batch=20, n_shell=50, n_eff=100, discard_at_end=False, resumes=1)]
+          dict(step_mode='mixed', family='twomode', n_dim=2, n_live=40, n_networks=0, n_batch=20, n_shell=50, n_eff=100, discard_at_end=False, resumes=1),
+          # targets already met when exploration ends: the call in which it ends must return True
+          dict(step_mode='mixed', family='gauss', n_dim=2, n_live=30, n_networks=0, n_batch=7, n_shell=1, n_eff=1, discard_at_end=False, toggles=0, f_live=0.01),
+          dict(family='twomode', n_dim=2, n_live=40, n_networks=0, n_batch=10, n_shell=1, n_eff=2, discard_at_end=False, toggles=0, f_live=0.3)]
 
 
 def main(run: Run, audit):
